@@ -12,9 +12,10 @@ ClearObsX == [a |-> "clear", arg |-> [x |-> 0], exp |-> [alts |-> << [tree |-> <
 InitObs == [a |-> fobs.a, arg |-> fobs.arg, exp |-> fobs.exp]
 Cases ==
   /\ \A fe \in FrontEnds \ {"folder"}, lacc \in LoadAccs, k \in 0..MaxFail :
-        LoadOK(fe, lacc, k) => PrintT(<<"BEHAV", ToJson(<<InitObs, LoadObs(fe, lacc, k), IF IsCxx(fe) THEN ClearObsX ELSE ClearObs>>)>>)
+        LoadOK(fe, lacc, k) => \A lg \in LogsOf(fe) :
+           PrintT(<<"BEHAV", ToJson(<<InitObs, LoadObs(fe, lacc, k, lg), IF IsCxx(fe) THEN ClearObsX ELSE ClearObs>>)>>)
   /\ ("folder" \in FrontEnds /\ FeOK("folder", Same)) =>
-        \A k \in 0..MaxFail : PrintT(<<"BEHAV", ToJson(<<InitObs, FolderObs(k, k # 1)>>)>>)
+        \A k \in 0..MaxFail, lg \in 0..1 : PrintT(<<"BEHAV", ToJson(<<InitObs, FolderObs(k, k # 1, lg)>>)>>)
 \* evaluated once per distinct state = once per document (unprimed: TLC caches the lazy values there)
 CasesInv == Cases
 GSpec == FInit /\ [][(DocNext /\ UNCHANGED <<target, pre, aside, nl, fobs>>) \/ PutAside]_fvars
